@@ -24,26 +24,28 @@ Print Assumptions C07_history_generic_all_results.
 
 (* ---- the loader model satisfies the footprint conditions for EVERY layout of the defaults (tie B2-B3) ---- *)
 Theorem C07_loaders_footprint :
-  forall ms fs fuel,
-    reads_only cell (list string) lcall res (exec_call fuel ms fs) (fun _ => shared_cells ms) (fun _ => shared_cells ms)
-    /\ writes_only cell (list string) lcall res (exec_call fuel ms fs) (fun _ => shared_cells ms).
-Proof. exact (fun ms fs fuel => conj (loaders_reads_only ms fs fuel) (loaders_writes_only ms fs fuel)). Qed.
+  forall ms sh fs fuel,
+    reads_only cell (list string) lcall res (exec_call fuel ms sh fs) (fun _ => shared_cells ms) (fun _ => shared_cells ms)
+    /\ writes_only cell (list string) lcall res (exec_call fuel ms sh fs) (fun _ => shared_cells ms).
+Proof. exact (fun ms sh fs fuel => conj (loaders_reads_only ms sh fs fuel) (loaders_writes_only ms sh fs fuel)). Qed.
 Print Assumptions C07_loaders_footprint.
 
 (* ---- loader histories: no shared default object -> the n-th call returns what the first returns ---- *)
 Theorem C07_history :
   forall ms, shared_cells ms = [] ->
-  forall fs fuel hist x w0,
-    fst (exec_call fuel ms fs x (run_hist fuel ms fs hist w0)) = fst (exec_call fuel ms fs x w0).
-Proof. exact (fun ms H fs fuel hist x w0 => loads_history_independent ms fs H fuel hist x w0). Qed.
+  forall sh fs fuel hist x w0,
+    fst (exec_call fuel ms sh fs x (run_hist fuel ms sh fs hist w0)) = fst (exec_call fuel ms sh fs x w0).
+Proof. exact (fun ms H sh fs fuel hist x w0 => loads_history_independent ms sh fs H fuel hist x w0). Qed.
 Print Assumptions C07_history.
 
 (* ---- and a shared `already_included` default of read_neuroml2_string is observable (witness replayed on the code) ---- *)
 Theorem C07_history_shared_refuted :
-  forall mf mi, let ms := {| m_file := mf; m_string := DSharedList; m_inner := mi |} in
+  forall mf mi me af ht,
+  let ms := {| m_file := mf; m_string := DSharedList; m_inner := mi |} in
+  let sh := {| sh_mark_entry := me; sh_append_first := af; sh_h5_threads := ht |} in
   exists fs hist x,
-    fst (exec_call 10 ms fs x (run_hist 10 ms fs hist w_empty)) <> fst (exec_call 10 ms fs x w_empty)
-    /\ fst (exec_call 10 ms fs x w_empty) <> RFuel.
+    fst (exec_call 10 ms sh fs x (run_hist 10 ms sh fs hist w_empty)) <> fst (exec_call 10 ms sh fs x w_empty)
+    /\ fst (exec_call 10 ms sh fs x w_empty) <> RFuel.
 Proof. exact StateP.C07_history_shared_refuted. Qed.
 Print Assumptions C07_history_shared_refuted.
 
@@ -65,14 +67,14 @@ Print Assumptions C07_interleave_refuted.
 
 (* ---- interleaving, NetworkBuilder model (an instance of the abstract system): any schedule, any length ---- *)
 Theorem C07_builder_interleave :
-  forall p, (forall d, p d = true) ->
-  forall sched w, bdump p w (brun p sched bsys0) = solo_dump (ops_of w sched).
+  forall eg p, (forall d, p d = true) ->
+  forall sched w, bdump p w (brun eg p sched bsys0) = solo_dump eg (ops_of w sched).
 Proof. exact builder_interleave_dump. Qed.
 Print Assumptions C07_builder_interleave.
 
 Theorem C07_builder_interleave_refuted :
-  forall b c d e f g, let p := mkp false b c d e f g in
-  exists sched w, bdump p w (brun p sched bsys0) <> solo_dump (ops_of w sched).
+  forall eg b c d e f g, let p := mkp false b c d e f g in
+  exists sched w, bdump p w (brun eg p sched bsys0) <> solo_dump eg (ops_of w sched).
 Proof. exact builder_interleave_refuted. Qed.
 Print Assumptions C07_builder_interleave_refuted.
 
@@ -88,15 +90,17 @@ Print Assumptions C07_state_ok.
 
 Theorem C07_loads_history_independent :
   forall fuel fs hist x w0,
-    fst (exec_call fuel (modes_of Gen_C07.table) fs x (run_hist fuel (modes_of Gen_C07.table) fs hist w0))
-    = fst (exec_call fuel (modes_of Gen_C07.table) fs x w0).
-Proof. exact (loads_history_of_table Gen_C07.table Inst_C07_defaults.defaults_ok). Qed.
+    fst (exec_call fuel (modes_of Gen_C07.table) Gen_C07.shape fs x
+                   (run_hist fuel (modes_of Gen_C07.table) Gen_C07.shape fs hist w0))
+    = fst (exec_call fuel (modes_of Gen_C07.table) Gen_C07.shape fs x w0).
+Proof. exact (loads_history_of_table Gen_C07.table Inst_C07_defaults.defaults_ok Gen_C07.shape). Qed.
 Print Assumptions C07_loads_history_independent.
 
 Theorem C07_builders_do_not_interfere :
   forall sched w,
-    bdump (placement_of Gen_C07.table) w (brun (placement_of Gen_C07.table) sched bsys0) = solo_dump (ops_of w sched).
-Proof. exact (builder_interleave_of_table Gen_C07.table Inst_C07_fields.fields_ok). Qed.
+    bdump (placement_of Gen_C07.table) w (brun Gen_C07.elec_guard (placement_of Gen_C07.table) sched bsys0)
+    = solo_dump Gen_C07.elec_guard (ops_of w sched).
+Proof. exact (builder_interleave_of_table Gen_C07.table Inst_C07_fields.fields_ok Gen_C07.elec_guard). Qed.
 Print Assumptions C07_builders_do_not_interfere.
 
 Theorem C07_no_default_is_mutated :
